@@ -263,6 +263,10 @@ impl C04 {
                 items.push(It::Math(false));
             }
             let n_boxes = 1 + rng.below(3) as usize;
+            if wi > 0 && rng.chance(1, 8) {
+                // a word that starts with a font/accent kern: not discardable, belongs to the line
+                items.push(It::Kern(false, u(*rng.pick(&[5, 3, -2]))));
+            }
             for bi in 0..n_boxes {
                 items.push(It::Box(u(*rng.pick(&[4, 6, 6, 7, 9, 12, 20])) + if unit > 1 && rng.chance(1, 3) { rng.range(-500, 500) } else { 0 }));
                 if bi + 1 < n_boxes && rng.chance(1, 3) {
@@ -293,12 +297,12 @@ impl C04 {
             // inter-word material: mostly one glue; sometimes runs of discardable items
             match rng.below(12) {
                 0 => {
-                    items.push(It::Penalty(*rng.pick(&[0, 50, -50, 200, 9999, 10000, -9999, -10000, 500])));
+                    items.push(It::Penalty(*rng.pick(&[0, 50, -50, 200, 9999, 10000, 10001, -9999, -10000, -10001, -20000, 500])));
                     items.push(It::Glue(sp[0], u(2), 0, u(1)));
                 }
                 1 => {
                     items.push(It::Glue(sp[1], u(3), 0, u(1)));
-                    items.push(It::Penalty(*rng.pick(&[0, -100, 300, -10000])));
+                    items.push(It::Penalty(*rng.pick(&[0, -100, 300, -10000, -10001, -30000])));
                     items.push(It::Glue(sp[2], u(1), 0, u(1)));
                 }
                 2 => {
@@ -311,7 +315,7 @@ impl C04 {
                     items.push(It::Glue(sp[0], u(2), 0, u(1)));
                 }
                 4 => items.push(It::Glue(sp[1], u(*rng.pick(&[0, 1, 10])), *rng.pick(&[0, 0, 1, 2, 3]), u(*rng.pick(&[0, 2])))),
-                5 => items.push(It::Penalty(*rng.pick(&[0, 100, -100, -10000]))),
+                5 => items.push(It::Penalty(*rng.pick(&[0, 100, -100, -10000, -10001]))),
                 _ => items.push(It::Glue(*rng.pick(&sp), u(*rng.pick(&[1, 2, 3, 3])), 0, u(*rng.pick(&[0, 1, 1, 2])))),
             }
         }
@@ -432,6 +436,30 @@ impl Property for C04 {
                 };
                 v.push(format!("kp {force} 0 {}", join(&inst.encode())));
             }
+        }
+        // badness arithmetic stream (TeX.2021.108): one-line paragraphs `box glue` whose shortfall t and
+        // stretch (or shrink) s sit at and around the case boundaries of the routine
+        // (t = 7230584, s = 1663497, r = 1290, s multiples of 297), at tolerances around the result
+        let n_bad = if ctx.thorough { 60_000 } else { 6_000 };
+        let mut r = rng.fork();
+        let ts: [i64; 12] = [1, 297, 7230583, 7230584, 7230585, 7249875, 8388608, 16777216, 100_000_000, 536_870_911, 1_000_000_000, 65536];
+        let ss: [i64; 12] = [1, 296, 297, 298, 1663496, 1663497, 1663498, 5742197, 3_000_000, 30_000_000, 900_000_000, 65536];
+        for k in 0..n_bad {
+            let t = (*r.pick(&ts) + r.range(-3, 3) + if r.chance(1, 3) { r.range(0, 2_000_000) } else { 0 }).clamp(1, 1_000_000_000);
+            let sv = (*r.pick(&ss) + r.range(-3, 3) + if r.chance(1, 3) { r.range(0, 2_000_000) } else { 0 }).clamp(0, 1_000_000_000);
+            let width: i64 = 1_050_000_000;
+            let stretch_side = k % 3 != 0;
+            // box narrower (stretch) or wider (shrink) than the line by t
+            let (boxw, glue) = if stretch_side { (width - t, It::Glue(0, sv, 0, 0)) } else { (width.min(1_000_000_000) + 0, It::Glue(0, 0, 0, sv)) };
+            let (lw, boxw) = if stretch_side { (width, boxw) } else { (boxw - t.min(boxw - 1), boxw) };
+            let inst = Inst {
+                tol: *r.pick(&[0, 12, 13, 99, 100, 200, 201, 1000, 9999, 10000]),
+                emerg: 0, line_pen: 10, hyph_pen: 50, exhyph_pen: 50, adj: 10000, dbl: 10000, fin: 5000,
+                left: [0; 4], right: [0; 4], widths: vec![lw],
+                // the penalty makes the glue an illegal breakpoint: the paragraph has exactly one line
+                items: vec![It::Box(boxw), It::Penalty(10000), glue],
+            };
+            v.push(format!("kp 0 0 {}", join(&inst.encode())));
         }
         // looseness stream: short paragraphs whose last line has *finite* stretch, so that several
         // end states with the same line count but different fitness classes and demerits coexist
